@@ -18,6 +18,7 @@ import (
 	"github.com/gogo/protobuf/proto"
 
 	abci "github.com/tendermint/tendermint/abci/types"
+	cstypes "github.com/tendermint/tendermint/consensus/types"
 	"github.com/tendermint/tendermint/crypto/ed25519"
 	"github.com/tendermint/tendermint/p2p"
 	bcproto "github.com/tendermint/tendermint/proto/tendermint/blockchain"
@@ -423,59 +424,232 @@ func parseBatches(arg string) []batchSpec {
 	return out
 }
 
-func stageN3(c *verdict.Ctx, r *rec, arg string) {
+// step modes: in which consensus step of the node a batch delivers its inputs
+var n3Modes = []string{"prevote", "precommit", "newheight", "propose", "mixed"}
+
+// driveTo tries (with bounded effort) to bring the node into the wanted step; the step
+// actually reached is recorded with every input.
+func (ch *n3Child) driveTo(mode string) {
+	n := ch.n
+	switch mode {
+	case "prevote":
+		n.settle(time.Second)
+	case "precommit":
+		n.settle(time.Second)
+		waitUntil(time.Second, func() bool {
+			rs := n.conS.GetRoundState()
+			if rs.Step == cstypes.RoundStepPrecommit && rs.Votes != nil {
+				if vs := rs.Votes.Precommits(rs.Round); vs != nil && vs.GetByAddress(n.nodeAddr) != nil {
+					return true
+				}
+			}
+			_, _ = n.mirrorTypes(tmproto.PrevoteType)
+			return false
+		})
+	case "newheight":
+		if n.conS.GetRoundState().Step == cstypes.RoundStepNewHeight {
+			return
+		}
+		_, _ = n.advance(1, 20*time.Second) // right after a commit the node waits timeout_commit in NewHeight
+	case "propose":
+		for k := 0; k < 3; k++ {
+			if waitUntil(60*time.Millisecond, func() bool { return n.conS.GetRoundState().Step == cstypes.RoundStepPropose }) {
+				return
+			}
+			_, _ = n.advance(1, 20*time.Second)
+		}
+	}
+}
+
+// stackSite extracts "function file:line" of the innermost tendermint frame below panic() from a logged stack.
+func stackSite(ln string) string {
+	i := strings.Index(ln, `stack="`)
+	if i < 0 {
+		return "?"
+	}
+	sep := `\n`
+	if !strings.Contains(ln[i:], sep) {
+		sep = "\n"
+	}
+	fr := strings.Split(ln[i+7:], sep)
+	for j, f := range fr {
+		if !strings.HasPrefix(f, "panic(") {
+			continue
+		}
+		for k := j + 1; k+1 < len(fr); k++ {
+			if strings.HasPrefix(fr[k], `\t`) || strings.HasPrefix(fr[k], "\t") || !strings.HasPrefix(fr[k], "github.com/tendermint/tendermint/") {
+				continue
+			}
+			fn := fr[k]
+			if a := strings.LastIndexByte(fn, '('); a > 0 {
+				fn = fn[:a]
+			}
+			return strings.TrimPrefix(fn, "github.com/tendermint/tendermint/")
+		}
+		break
+	}
+	return "?"
+}
+
+// checkConsensus: the receive routine of the consensus state must still be alive.  If it
+// is not, the finding is recorded and the child ends (exit 91); the parent starts a new one.
+func (ch *n3Child) checkConsensus(stream string, batch int) {
+	n, r := ch.n, ch.r
+	if !n.consensusDead() {
+		return
+	}
+	line := n.failLog.get()
+	site := stackSite(line)
+	errText := ""
+	if i := strings.Index(line, `err="`); i >= 0 {
+		errText = line[i+5:]
+		if e := strings.Index(errText, `" stack=`); e >= 0 {
+			errText = errText[:e]
+		}
+		if len(errText) > 300 {
+			errText = errText[:300]
+		}
+	}
+	var last []*n3Input
+	if k := len(ch.recent); k > 4 {
+		last = ch.recent[k-4:]
+	} else {
+		last = ch.recent
+	}
+	if len(line) > 5000 {
+		line = line[:5000]
+	}
+	rs := n.conS.GetRoundState()
+	r.Violation("consensus-failure@"+site,
+		"peer input made the consensus state's receive routine panic (\"CONSENSUS FAILURE\"): the node stops taking part in consensus; only the peer may be dropped. panic: "+errText,
+		map[string]interface{}{"stream": stream, "batch": batch, "last_inputs_newest_last": last, "node_height": rs.Height, "node_round": rs.Round, "node_step": rs.Step.String(),
+			"log_line": line, "replay": fmt.Sprintf("the inputs above carry the exact bytes; stage %s batch %d regenerates the neighbourhood", stream, batch)})
+	r.Count("n3.consensus_failures", 1)
+	r.flush()
+	os.Exit(91)
+}
+
+func parseAvoid(env string) (bool, map[string]bool) {
+	sigs := map[string]bool{}
+	for _, f := range strings.Split(env, ";") {
+		f = strings.TrimSpace(f)
+		if strings.HasPrefix(f, "sig:") {
+			sigs[f[4:]] = true
+		}
+	}
+	return strings.Contains(env, "bitarray"), sigs
+}
+
+func stageN3(c *verdict.Ctx, r *rec, arg string) { stageN3x(c, r, arg, false) }
+
+// stageN3Init: the victim is still in RoundStepNewHeight of the INITIAL height while the inputs arrive.
+func stageN3Init(c *verdict.Ctx, r *rec, arg string) { stageN3x(c, r, arg, true) }
+
+func stageN3x(c *verdict.Ctx, r *rec, arg string, init bool) {
 	memoryGuard(6 << 30)
 	dir := os.Getenv("VERIF_C17_DIR")
 	if dir == "" {
 		dir = verdict.TmpDir("c17n3-")
 		defer os.RemoveAll(dir)
 	}
+	stream := "n3"
+	if init {
+		stream = "n3init"
+	}
 	tag := sanitizeName(arg)
-	nodeDir := filepath.Join(dir, "node-"+tag)
-	logF, err := os.Create(filepath.Join(dir, "n3-"+tag+".inputs"))
+	nodeDir := filepath.Join(dir, "node-"+stream+"-"+tag)
+	logF, err := os.Create(filepath.Join(dir, stream+"-"+tag+".inputs"))
 	if err != nil {
 		r.HarnessError("n3: %v", err)
 		return
 	}
 	defer logF.Close()
-	n := newN3Node(nodeDir, n3GossipSleep)
+	initWindow := time.Duration(c.N(4, 8)) * time.Second
+	opts := nodeOpts{gossipSleep: n3GossipSleep, timeoutCommit: 100 * time.Millisecond, skipTimeoutCommit: false}
+	if init {
+		opts = nodeOpts{gossipSleep: n3GossipSleep, timeoutCommit: initWindow, skipTimeoutCommit: true}
+	}
+	tStart := time.Now()
+	n := newN3NodeOpts(nodeDir, opts)
 	ch := &n3Child{c: c, r: r, n: n, logF: logF}
-	if got, err := n.advance(3, 60*time.Second); err != nil {
-		r.HarnessError("n3: the node under test did not commit its first heights (%d of 3): %v", got, err)
-		return
+	if !init {
+		if got, err := n.advance(3, 60*time.Second); err != nil {
+			ch.checkConsensus(stream, -1)
+			r.HarnessError("n3: the node under test did not commit its first heights (%d of 3): %v", got, err)
+			return
+		}
 	}
 	perBatch := c.N(100, 250)
-	avoid := os.Getenv("VERIF_C17_AVOID")
+	avoidBits, avoidSigs := parseAvoid(os.Getenv("VERIF_C17_AVOID"))
 	for _, bs := range parseBatches(arg) {
 		b := bs.b
-		rnd := c.Rand("n3", b)
+		rnd := c.Rand(stream, b)
 		g := &gen{r: rnd, n: n, unknown: ed25519.GenPrivKeyFromSecret([]byte(fmt.Sprintf("c17-unknown-%d", b))),
-			avoidBadElems: strings.Contains(avoid, "bitarray")}
+			avoidBadElems: avoidBits, avoid: avoidSigs}
 		if g.avoidBadElems {
 			r.Count("n3.batches_run_with_malformed_bit_arrays_suppressed", 1)
 		}
-		n.settle(2 * time.Second)
-		for i := 0; i < perBatch; i++ {
+		if len(avoidSigs) > 0 {
+			r.Count("n3.batches_run_with_some_message_signatures_suppressed", 1)
+		}
+		mode := n3Modes[b%len(n3Modes)]
+		limit := perBatch
+		if init {
+			mode, limit = "initial-height-newheight", 1<<30
+			g.focusPrev = true
+		} else {
+			g.focusPrev = mode == "newheight"
+			r.Count("n3.batches_in_mode."+mode, 1)
+		}
+		for i := 0; i < limit; i++ {
+			if init {
+				rs := n.conS.GetRoundState()
+				if time.Since(tStart) > initWindow-500*time.Millisecond || rs.Step != cstypes.RoundStepNewHeight || rs.Height != n.genDoc.InitialHeight {
+					break
+				}
+			} else if i >= bs.start {
+				m := mode
+				if m == "mixed" {
+					m = n3Modes[rnd.Intn(4)]
+				}
+				ch.driveTo(m)
+			}
 			g.lc = n.live()
 			in := g.makeInput(b, i)
+			in.Stream = stream
 			if i < bs.start {
 				continue // resumed after a crash: these were executed by the previous child
 			}
 			rs := n.conS.GetRoundState()
 			in.NodeH, in.NodeR, in.NodeS = rs.Height, rs.Round, rs.Step.String()
+			r.Count("n3.node_step_at_delivery."+in.NodeS, 1)
+			if init {
+				r.Count("n3init.inputs_at_initial_height_before_round_0", 1)
+			}
 			ch.logInput(in)
 			ch.recent = append(ch.recent, in)
 			if len(ch.recent) > 12 {
 				ch.recent = ch.recent[1:]
 			}
 			ch.deliver(in)
-			if rnd.Intn(25) == 0 {
+			ch.checkConsensus(stream, b)
+			if !init && mode == "prevote" && rnd.Intn(25) == 0 {
 				// now and then let the chain move while hostile traffic continues
 				_, _ = n.advance(1, 20*time.Second)
-				n.settle(time.Second)
 			}
 		}
+		time.Sleep(20 * time.Millisecond)
+		ch.checkConsensus(stream, b)
+		if init {
+			// the start time arrives: the node must enter round 0 and, with its co-validator, commit blocks
+			if !waitUntil(initWindow+20*time.Second, func() bool { return n.conS.GetRoundState().Step != cstypes.RoundStepNewHeight || n.consensusDead() }) {
+				r.Violation("node-unresponsive-after-hostile-batch:initial-height-never-started", "the node never left RoundStepNewHeight of the initial height after its start time",
+					map[string]interface{}{"stream": stream, "batch": b, "last_inputs": ch.recentNotes(), "goroutines": goroutineDump()})
+			}
+			ch.checkConsensus(stream, b)
+		}
 		ch.probes(b)
+		ch.checkConsensus(stream, b)
 		// goroutines: every hostile connection is gone by now; what remains beyond the idle
 		// node + one honest peer was leaked by the peer handling
 		time.Sleep(20 * time.Millisecond)
@@ -483,14 +657,17 @@ func stageN3(c *verdict.Ctx, r *rec, arg string) {
 		r.Max("n3.max_goroutines_after_batch", ng)
 		if ng > goroutineCap {
 			r.Violation("node-goroutine-leak-after-hostile-batch", fmt.Sprintf("%d goroutines are alive after the batch although only one honest peer is connected (idle node: about 50)", ng),
-				map[string]interface{}{"stream": "n3", "batch": b, "goroutines": goroutineDump()})
+				map[string]interface{}{"stream": stream, "batch": b, "goroutines": goroutineDump()})
+		}
+		if init {
+			r.Count("n3init.batches", 1)
+			break // one initial height per process
 		}
 		r.Count("n3.batches", 1)
 		r.flush()
 	}
-	for name, w := range n.wraps {
+	for name := range n.wraps {
 		ret, pan := n.receiveCount(name)
-		_ = w
 		r.Count("n3.receive_calls."+name, ret+pan)
 	}
 	r.Count("n3.final_height", n.store.Height())
@@ -527,65 +704,136 @@ func lastInputs(path string, k int) ([]json.RawMessage, int, int) {
 	return lines, batch, index
 }
 
+// avoidBook collects, per crash / consensus-failure site, the message signatures of the input
+// that preceded it.  When a site has been hit twice, the signatures common to both inputs are
+// suppressed in the children started afterwards, so that one easily reached defect does not
+// keep the rest of the input space from being explored.  (Purely a property of what was
+// observed in this run; nothing is known in advance.)
+type avoidBook struct {
+	mu    sync.Mutex
+	sites map[string][][]string
+	sigs  map[string]bool
+	bits  bool
+}
+
+func (a *avoidBook) env() string {
+	a.mu.Lock()
+	defer a.mu.Unlock()
+	var sb strings.Builder
+	if a.bits {
+		sb.WriteString("bitarray;")
+	}
+	for s := range a.sigs {
+		sb.WriteString("sig:" + s + ";")
+	}
+	return sb.String()
+}
+
+func (a *avoidBook) note(site string, lastInput json.RawMessage) {
+	var in struct {
+		Seq []struct {
+			Sig string `json:"signature"`
+		} `json:"messages"`
+	}
+	_ = json.Unmarshal(lastInput, &in)
+	var sigs []string
+	for _, m := range in.Seq {
+		sigs = append(sigs, m.Sig)
+	}
+	a.mu.Lock()
+	defer a.mu.Unlock()
+	if strings.Contains(site, "bits.(*BitArray)") && len(a.sites[site]) >= 1 {
+		a.bits = true
+	}
+	a.sites[site] = append(a.sites[site], sigs)
+	if l := a.sites[site]; len(l) >= 2 {
+		prev := map[string]bool{}
+		for _, s := range l[len(l)-2] {
+			prev[s] = true
+		}
+		for _, s := range sigs {
+			if prev[s] && s != "" {
+				a.sigs[s] = true
+			}
+		}
+	}
+}
+
 func runN3lite(c *verdict.Ctx) {
 	dir := verdict.TmpDir("c17n3-")
 	defer os.RemoveAll(dir)
 	nb := c.N(20, 96)
 	kids := c.N(4, 8)
-	lists := make([][]int, kids)
-	for b := 0; b < nb; b++ {
-		lists[b%kids] = append(lists[b%kids], b)
+	type job struct {
+		stage string
+		todo  []string
 	}
+	jobs := make([]job, kids)
+	for b := 0; b < nb; b++ {
+		jobs[b%kids].stage = "n3"
+		jobs[b%kids].todo = append(jobs[b%kids].todo, strconv.Itoa(b))
+	}
+	for k := 0; k < c.N(2, 6); k++ {
+		jobs = append(jobs, job{"n3init", []string{strconv.Itoa(k)}})
+	}
+	book := &avoidBook{sites: map[string][][]string{}, sigs: map[string]bool{}}
 	var wg sync.WaitGroup
 	var mu sync.Mutex
 	t0 := time.Now()
-	for k := 0; k < kids; k++ {
+	for _, jb := range jobs {
 		wg.Add(1)
-		go func(k int) {
+		go func(jb job) {
 			defer wg.Done()
-			var todo []string
-			for _, b := range lists[k] {
-				todo = append(todo, strconv.Itoa(b))
-			}
-			siteSeen := map[string]int{}
-			avoid := ""
+			todo := jb.todo
 			budget := c.N(10, 40)
 			for attempt := 0; len(todo) > 0; attempt++ {
 				if attempt > budget {
 					mu.Lock()
-					c.Count("n3.batches_skipped_after_restart_budget", int64(len(todo)))
+					c.Count(jb.stage+".batches_skipped_after_restart_budget", int64(len(todo)))
 					mu.Unlock()
 					return
 				}
 				arg := strings.Join(todo, ",")
-				res := spawn(c, dir, "n3", arg, false, 12*time.Minute, "VERIF_C17_AVOID="+avoid)
+				res := spawn(c, dir, jb.stage, arg, false, 12*time.Minute, "VERIF_C17_AVOID="+book.env())
 				mu.Lock()
 				res.rec.apply(c, "")
 				mu.Unlock()
 				if !res.crashed {
 					return
 				}
-				ins, batch, index := lastInputs(filepath.Join(dir, "n3-"+sanitizeName(arg)+".inputs"), 4)
-				extra := map[string]interface{}{"stream": "n3", "batches_of_this_child": arg, "last_logged_inputs_newest_last": ins,
-					"replay": fmt.Sprintf("cd /verif && VERIF_C17_STAGE=n3 VERIF_C17_ARG=%d VERIF_C17_OUT=/dev/null bin/vcheck C17   # then look at input %d", batch, index)}
+				ins, batch, index := lastInputs(filepath.Join(dir, jb.stage+"-"+sanitizeName(arg)+".inputs"), 4)
+				extra := map[string]interface{}{"stream": jb.stage, "batches_of_this_child": arg, "last_logged_inputs_newest_last": ins,
+					"replay": fmt.Sprintf("the logged inputs carry the exact bytes; ./run C17 --replay <this file> runs batch %d again (look at input %d)", batch, index)}
 				cs := parseCrash(res.stderr)
+				site := ""
 				mu.Lock()
-				if res.exit == 90 || strings.Contains(res.stderr, "MEMORY-WATCHDOG") {
-					c.Violation("node-memory-exhaustion", "hostile input drove the node's heap beyond the harness' cap", extra)
-				} else {
-					reportCrash(c, "n3", res, extra)
-				}
-				c.Count("n3.child_crashes", 1)
-				mu.Unlock()
-				if cs.msg != "" && !cs.harness {
-					siteSeen[cs.tmFrame]++
-					if strings.Contains(cs.tmFrame, "bits.(*BitArray)") && siteSeen[cs.tmFrame] >= 2 && !strings.Contains(avoid, "bitarray") {
-						avoid += "bitarray,"
+				switch {
+				case res.exit == 91:
+					// consensus failure: the child has recorded the violation itself
+					for _, v := range res.rec.Violations {
+						if strings.HasPrefix(v.Key, "consensus-failure@") {
+							site = v.Key
+						}
 					}
-				} else if cs.harness {
+					c.Count("n3.child_restarts_after_consensus_failure", 1)
+				case res.exit == 90 || strings.Contains(res.stderr, "MEMORY-WATCHDOG"):
+					c.Violation("node-memory-exhaustion", "hostile input drove the node's heap beyond the harness' cap", extra)
+					c.Count("n3.child_crashes", 1)
+				default:
+					reportCrash(c, jb.stage, res, extra)
+					c.Count("n3.child_crashes", 1)
+					if cs.msg != "" && !cs.harness {
+						site = cs.key(jb.stage)
+					}
+				}
+				mu.Unlock()
+				if cs.msg != "" && cs.harness {
 					return // a harness failure repeats; do not loop on it
 				}
-				// carry on right after the input that crashed
+				if site != "" && len(ins) > 0 {
+					book.note(site, ins[len(ins)-1])
+				}
+				// carry on right after the input that brought the node down
 				var rest []string
 				found := false
 				for _, f := range todo {
@@ -605,7 +853,7 @@ func runN3lite(c *verdict.Ctx) {
 				}
 				todo = rest
 			}
-		}(k)
+		}(jb)
 	}
 	wg.Add(1)
 	go func() {
@@ -626,6 +874,15 @@ func runN3lite(c *verdict.Ctx) {
 	}()
 	wg.Wait()
 	c.Set("n3.wall_s", time.Since(t0).Seconds())
+	book.mu.Lock()
+	if len(book.sigs) > 0 {
+		var l []string
+		for s := range book.sigs {
+			l = append(l, s)
+		}
+		c.Set("n3.message_signatures_suppressed_after_repeated_failures", l)
+	}
+	book.mu.Unlock()
 }
 
 var _ p2p.Peer
